@@ -50,9 +50,11 @@ def to_code_data(code: CodeType) -> CodeData:
             flags_data=flags_data,
         )
     )
-    assert ("NOFREE" in flags_data) == (
-        (not code.co_freevars) and (not code.co_cellvars)
-    ), "NOFREE is set if and only if there are no cellvars and no freevars"
+    # These checks are on the input, so they must also hold when run with -O
+    if ("NOFREE" in flags_data) != ((not code.co_freevars) and (not code.co_cellvars)):
+        raise ValueError(
+            "NOFREE is set if and only if there are no cellvars and no freevars"
+        )
 
     flags_data -= {"NOFREE"}
 
@@ -66,7 +68,8 @@ def to_code_data(code: CodeType) -> CodeData:
     fn_flags = flags_data & FN_FLAGS
     if len(fn_flags) == 0:
         block_type = None
-        assert not args, "if this isn't a function, it shouldn't have args"
+        if args:
+            raise ValueError("if this isn't a function, it shouldn't have args")
     elif len(fn_flags) == 2:
         # Use the first const as a docstring if its a string
         # https://github.com/python/cpython/blob/da8be157f4e275c4c32b9199f1466ed7e52f62cf/Objects/funcobject.c#L33-L38
@@ -74,7 +77,8 @@ def to_code_data(code: CodeType) -> CodeData:
             constants[0] if constants and isinstance(constants[0], str) else None
         )
         fn_tp_flags = cast(Set[FunctionType], FN_TYPE_FLAGS & flags_data)
-        assert len(fn_tp_flags) in {0, 1}
+        if len(fn_tp_flags) > 1:
+            raise ValueError(f"Expected at most one function type flag: {fn_tp_flags}")
         fn_tp = fn_tp_flags.pop() if fn_tp_flags else None
         if fn_tp:
             flags_data.remove(fn_tp)
